@@ -214,41 +214,52 @@ Definition scopeid (sc : str) : option Z :=
 (* inet_ntop (AF_INET6): first longest run of >= 2 zero words is written "::", embedded IPv4 for
    ::a.b.c.d (run of six) and ::ffff:a.b.c.d *)
 (* scanning for the best run: cur/best = (base, len) *)
-Fixpoint best_run (ws : list Z) (i : Z) (cur best : option (Z * Z)) : option (Z * Z) :=
-  let better c b := match b with None => true | Some (_, bl) => snd c >? bl end in
+Definition run_better (c : nat * nat) (best : option (nat * nat)) : bool :=
+  match best with None => true | Some (_, bl) => (bl <? snd c)%nat end.
+Definition run_close (cur best : option (nat * nat)) : option (nat * nat) :=
+  match cur with Some c => if run_better c best then cur else best | None => best end.
+Fixpoint best_run (ws : list Z) (i : nat) (cur best : option (nat * nat)) : option (nat * nat) :=
   match ws with
-  | [] => match cur with Some c => if better c best then cur else best | None => best end
+  | [] => run_close cur best
   | w :: tl =>
     if w =? 0 then
-      best_run tl (i + 1) (match cur with None => Some (i, 1) | Some (cb, cl) => Some (cb, cl + 1) end) best
+      best_run tl (S i) (match cur with None => Some (i, 1%nat) | Some (cb, cl) => Some (cb, S cl) end) best
     else
-      best_run tl (i + 1) None (match cur with Some c => if better c best then cur else best | None => best end)
+      best_run tl (S i) None (run_close cur best)
   end.
-Definition best_of (ws : list Z) : option (Z * Z) :=
+Definition best_of (ws : list Z) : option (nat * nat) :=
   match best_run ws 0 None None with
-  | Some (b, l) => if l <? 2 then None else Some (b, l)
+  | Some (b, l) => if (l <? 2)%nat then None else Some (b, l)
   | None => None
   end.
 
-Fixpoint ntop6_emit (ws : list Z) (i : Z) (best : option (Z * Z)) (w5 w6 w7 : Z) : str :=
+(* "is this address an encapsulated IPv4?" (asked at word 6) *)
+Definition v4_tail (best : option (nat * nat)) (w5 : Z) : bool :=
+  match best with
+  | Some (b, l) => (b =? 0)%nat && ((l =? 6)%nat || ((l =? 5)%nat && (w5 =? 65535)))
+  | None => false
+  end.
+Definition in_run (best : option (nat * nat)) (i : nat) : bool :=
+  match best with Some (b, l) => (b <=? i)%nat && (i <? b + l)%nat | None => false end.
+Definition run_base (best : option (nat * nat)) (i : nat) : bool :=
+  match best with Some (b, _) => (i =? b)%nat | None => false end.
+
+Fixpoint ntop6_emit (ws : list Z) (i : nat) (best : option (nat * nat)) (w5 w6 w7 : Z) : str :=
   match ws with
   | [] => []
   | w :: tl =>
-    let inrun := match best with Some (b, l) => (b <=? i) && (i <? b + l) | None => false end in
-    if inrun then
-      (if match best with Some (b, _) => i =? b | None => false end then [58] else []) ++ ntop6_emit tl (i + 1) best w5 w6 w7
+    if in_run best i then
+      (if run_base best i then [58] else []) ++ ntop6_emit tl (S i) best w5 w6 w7
     else
-      (if i =? 0 then [] else [58]) ++
-      (if (i =? 6) && match best with
-                       | Some (b, l) => (b =? 0) && ((l =? 6) || ((l =? 5) && (w5 =? 65535)))
-                       | None => false end
+      (if (i =? 0)%nat then [] else [58]) ++
+      (if (i =? 6)%nat && v4_tail best w5
        then ntop4 (w6 * 65536 + w7)
-       else print_hex w ++ ntop6_emit tl (i + 1) best w5 w6 w7)
+       else print_hex w ++ ntop6_emit tl (S i) best w5 w6 w7)
   end.
 Definition ntop6 (ws : list Z) : str :=
   let best := best_of ws in
   ntop6_emit ws 0 best (nth 5 ws 0) (nth 6 ws 0) (nth 7 ws 0) ++
-  match best with Some (b, l) => if b + l =? 8 then [58] else [] | None => [] end.
+  match best with Some (b, l) => if (b + l =? 8)%nat then [58] else [] | None => [] end.
 
 (** * NiceAddress operations *)
 Definition addr_valid (a : addr) : bool := match a with AUnspec => false | _ => true end.
